@@ -533,6 +533,10 @@ func c18Exhaustive(ctx *core.Ctx) {
 		if strings.ContainsAny(src, "A$") {
 			ctx.Add("dotenv", dotenvArgs{Src: src, Lookup: c18Lookups[1]})
 		}
+		if strings.Contains(src, "$") {
+			// a variable the lookup reports as set to the empty string is set (it must not fall through to earlier lines)
+			ctx.Add("dotenv", dotenvArgs{Src: src, Lookup: c18Lookups[2]})
+		}
 		ctx.Count(tag)
 		if n == 0 {
 			return
@@ -734,6 +738,35 @@ func c18Grammar(ctx *core.Ctx) {
 							ctx.Add("dotenvSpec", dspecArgs{Lines: []dline{first, l}, Lookup: c18Lookups[ctx.Rng.Intn(2)], NoNL: noNL})
 						}
 					}
+				}
+			}
+		}
+	}
+	// 2a'. precedence of the interpolation environment, exhaustively: every reference form × quoting ×
+	// state of the name in the lookup (unset / set-but-empty / set) × an earlier line defining it or not
+	refs := []string{"$N", "${N}", "${N-d}", "${N:-d}", "${N+a}", "${N:+a}", "${N?e}", "${N:?e}", "x$N.y", "${M:-$N}"}
+	lookups := []map[string]string{{}, {"N": ""}, {"N": "L"}, {"N": "", "M": ""}}
+	for _, ref := range refs {
+		for _, quoted := range []bool{false, true} {
+			for _, lk := range lookups {
+				for _, earlier := range []int{0, 1, 2} {
+					var ls []dline
+					if earlier >= 1 {
+						ls = append(ls, dline{K: "assign", Key: "N", Sep: "=", V: &dvalue{T: "unq", S: "early"}})
+					}
+					if earlier == 2 {
+						ls = append(ls, dline{K: "assign", Key: "N", Sep: "=", V: &dvalue{T: "sq"}}) // later assignment: N=''
+					}
+					v := &dvalue{T: "unq", S: ref}
+					if quoted {
+						v = &dvalue{T: "dq"}
+						for _, r := range ref {
+							v.Items = append(v.Items, qitem{C: sp(string(r))})
+						}
+					}
+					ls = append(ls, dline{K: "assign", Key: "K", Sep: "=", V: v}, dline{K: "bare", Key: "N"})
+					ctx.Count("spec-precedence")
+					ctx.Add("dotenvSpec", dspecArgs{Lines: ls, Lookup: lk})
 				}
 			}
 		}
